@@ -277,6 +277,12 @@ theorem k_gfBuildMonomial_eq (F : GF.GF) (deg coeff : Nat) :
     | ok v => rfl
     | error e => cases e <;> rfl
 
+when_kernel Gzx.Gen.K04b.gfBuildMonomial in
+/-- the same with degree and coefficient as integer expressions -/
+theorem k_gfBuildMonomial_at (F : GF.GF) (e1 e2 : Int) (deg coeff : Nat) (h1 : e1 = deg) (h2 : e2 = coeff) :
+    Gen.K04b.gfBuildMonomial (fieldRec F) e1 e2 = expE [] ints (buildMonomial deg coeff) := by
+  subst h1 h2; exact k_gfBuildMonomial_eq F deg coeff
+
 /-- what the fill loop of MultiplyBy / MultiplyByMonomial computes -/
 theorem fill_loop (F : GF.GF) (hF : TablesOK F) (p : List Nat) (s tailLen : Nat)
     {body : Int → List Int → Ctl (List Int) ρ} {n : Nat} {i0 : Int} {st : List Int}
